@@ -38,6 +38,7 @@ const (
 	tyDynamic
 	tyError
 	tyPanic
+	tyPartDyn // a structural type with the placeholder nested inside: only part of the result type is checked
 	numTyBeh
 )
 
@@ -52,7 +53,17 @@ const (
 	numImBeh
 )
 
-var tyBehNames = []string{"static", "type-of-first-argument", "dynamic", "returns-error", "panics"}
+var tyBehNames = []string{"static", "type-of-first-argument", "dynamic", "returns-error", "panics", "partly-dynamic"}
+
+// checked return types that are only partly known
+var c10PartDyn = []*TDesc{
+	{K: KObject, Names: []string{"data", "id"}, Elems: []*TDesc{tDynamic, tString}},
+	{K: KTuple, Elems: []*TDesc{tString, tDynamic}},
+	{K: KMap, Elem: tDynamic}, {K: KList, Elem: tDynamic}, {K: KSet, Elem: tDynamic},
+	{K: KObject, Names: []string{"a"}, Elems: []*TDesc{tDynamic}},
+	{K: KList, Elem: &TDesc{K: KObject, Names: []string{"data", "n"}, Elems: []*TDesc{tDynamic, tNumber}}},
+	{K: KTuple, Elems: []*TDesc{{K: KMap, Elem: tDynamic}, tBool}},
+}
 var imBehNames = []string{"conforming-value", "marked-value", "unknown", "wrong-type", "returns-error", "panics", "null"}
 
 type c10Spec struct {
@@ -308,9 +319,13 @@ func simC10Protocol(c *Ctx) {
 	}
 	sp.tyBeh = c.G(numTyBeh)
 	if c.G(3) != 0 {
-		sp.tyBeh = []int{tyStatic, tyFirstArg, tyDynamic}[c.G(3)]
+		sp.tyBeh = []int{tyStatic, tyFirstArg, tyDynamic, tyPartDyn}[c.G(4)]
 	}
 	sp.retT = c10Concrete[c.G(len(c10Concrete)-2)]
+	if sp.tyBeh == tyPartDyn {
+		sp.retT = c10PartDyn[c.G(len(c10PartDyn))]
+	}
+	wrongVariant := c.G(4)
 	sp.imBeh = c.G(numImBeh)
 	if c.G(3) == 0 {
 		sp.imBeh = imValue
@@ -386,6 +401,59 @@ func simC10Protocol(c *Ctx) {
 		if t == cty.String {
 			return cty.NumberIntVal(7)
 		}
+		// a value that agrees with the checked type wherever that is the placeholder and breaks one of its concrete parts
+		switch {
+		case wrongVariant == 0:
+		case t.IsObjectType() && len(t.AttributeTypes()) > 0:
+			m := map[string]cty.Value{}
+			names := sortedAttrNames(t)
+			for _, n := range names {
+				m[n] = knownOfType(t.AttributeType(n))
+			}
+			last := names[len(names)-1]
+			switch wrongVariant {
+			case 1:
+				delete(m, last) // an attribute is missing
+			case 2:
+				m["surplus"] = cty.True // one attribute too many
+			default:
+				m[last] = wrongOf(m[last]) // a concrete attribute has another type (a placeholder attribute stays conforming)
+				if t.AttributeType(last) == cty.DynamicPseudoType {
+					delete(m, last)
+				}
+			}
+			return cty.ObjectVal(m)
+		case t.IsTupleType() && len(t.TupleElementTypes()) > 0:
+			var vs []cty.Value
+			for _, et := range t.TupleElementTypes() {
+				vs = append(vs, knownOfType(et))
+			}
+			switch wrongVariant {
+			case 1:
+				vs = vs[:len(vs)-1]
+			case 2:
+				vs = append(vs, cty.True)
+			default:
+				ets := t.TupleElementTypes()
+				bad := false
+				for i, et := range ets {
+					if et != cty.DynamicPseudoType {
+						vs[i], bad = wrongOf(vs[i]), true
+						break
+					}
+				}
+				if !bad {
+					vs = vs[:len(vs)-1]
+				}
+			}
+			return cty.TupleVal(vs)
+		case t.IsListType():
+			return cty.SetVal([]cty.Value{cty.StringVal("a set, not a list")})
+		case t.IsMapType():
+			return cty.ObjectVal(map[string]cty.Value{"k": cty.StringVal("an object, not a map")})
+		case t.IsSetType():
+			return cty.ListVal([]cty.Value{cty.StringVal("a list, not a set")})
+		}
 		return cty.StringVal("wrong type")
 	}
 	valueOf := func(t cty.Type) cty.Value {
@@ -459,6 +527,14 @@ func simC10Protocol(c *Ctx) {
 		c10OneCall(c, sp, fn, spy, descs, kinds, entry, call)
 	}
 	c.NonTrivial()
+}
+
+// wrongOf returns a known value of another type than v's.
+func wrongOf(v cty.Value) cty.Value {
+	if v.Type() == cty.String {
+		return cty.NumberIntVal(7)
+	}
+	return cty.StringVal("wrong type")
 }
 
 // knownOfType builds some known non-null value of a concrete type.
